@@ -4,12 +4,14 @@ import (
 	"fmt"
 	"math"
 	"math/big"
+	"strings"
 
 	sdkmath "cosmossdk.io/math"
 	sdk "github.com/cosmos/cosmos-sdk/types"
 	authtypes "github.com/cosmos/cosmos-sdk/x/auth/types"
 
 	ammtypes "github.com/elys-network/elys/x/amm/types"
+	leveragelptypes "github.com/elys-network/elys/x/leveragelp/types"
 	stablestaketypes "github.com/elys-network/elys/x/stablestake/types"
 )
 
@@ -98,7 +100,56 @@ func poolAssetsString(p ammtypes.Pool) string {
 	return s
 }
 
-func (m *MonC05) observe(ctx sdk.Context, step string, singleAssetJoin bool) {
+// basisOf tells, per pool, which balance basis the share-changing messages of a transaction
+// are priced against on an oracle pool: "single" (one-asset join, one-asset exit, every
+// leveraged-LP open/close: accounted balances), "prop" (all-asset join/exit: raw reserves),
+// "mixed" when both kinds - or messages that move perpetual liabilities/custody - touch the
+// pool in one step.
+func basisOf(t *ExecTx) map[uint64]string {
+	out := map[uint64]string{}
+	set := func(id uint64, k string) {
+		if cur, ok := out[id]; ok && cur != k {
+			out[id] = "mixed"
+		} else {
+			out[id] = k
+		}
+	}
+	all := false
+	for _, msg := range flattenMsgs(t.Spec.Msgs) {
+		switch x := msg.(type) {
+		case *ammtypes.MsgJoinPool:
+			if len(x.MaxAmountsIn) == 1 {
+				set(x.PoolId, "single")
+			} else {
+				set(x.PoolId, "prop")
+			}
+		case *ammtypes.MsgExitPool:
+			if x.TokenOutDenom != "" {
+				set(x.PoolId, "single")
+			} else {
+				set(x.PoolId, "prop")
+			}
+		case *leveragelptypes.MsgOpen:
+			set(x.AmmPoolId, "single")
+		case *leveragelptypes.MsgClose, *leveragelptypes.MsgClosePositions:
+			all = true // pool known only through the position: every pool not named otherwise
+		default:
+			u := sdk.MsgTypeURL(msg)
+			if strings.HasPrefix(u, "/elys.perpetual.") || strings.HasPrefix(u, "/elys.tradeshield.") {
+				out[0] = "mixed" // liabilities / custody may move in the same step
+			}
+		}
+	}
+	if out[0] == "mixed" {
+		return map[uint64]string{0: "mixed"}
+	}
+	if all {
+		out[0] = "single"
+	}
+	return out
+}
+
+func (m *MonC05) observe(ctx sdk.Context, step string, basis map[uint64]string) {
 	s := m.sim
 	now := m.measure(ctx)
 	for id, v := range now {
@@ -142,11 +193,33 @@ func (m *MonC05) observe(ctx sdk.Context, step string, singleAssetJoin bool) {
 				allow.Add(allow, new(big.Rat).Mul(rhs, big.NewRat(1, 1_000_000_000)))
 				return new(big.Rat).Add(lhs, allow).Cmp(rhs) < 0
 			}
-			if fell(v.tvl, prev.tvl) && fell(v.tvlRaw, prev.tvlRaw) {
-				b, _ := new(big.Rat).Quo(prev.tvlRaw, new(big.Rat).SetInt(prev.shares.BigInt())).Float64()
-				a, _ := new(big.Rat).Quo(v.tvlRaw, new(big.Rat).SetInt(v.shares.BigInt())).Float64()
-				s.Violate("C05", "oracle_value_per_share_decreased_on_"+kind, step, "pool %d: value per share at oracle prices fell from %.12g to %.12g (relative %.3g; raw reserves; the accounted-balance value fell as well) across a %s; before {%s} after {%s}", id, b, a, (a-b)/b, kind, prev.desc, v.desc)
+			bs, ok := basis[id]
+			if !ok {
+				bs = basis[0] // default of the step
 			}
+			if bs == "" {
+				bs = "mixed"
+			}
+			fa, fr := fell(v.tvl, prev.tvl), fell(v.tvlRaw, prev.tvlRaw)
+			bad, which := false, ""
+			switch bs {
+			case "single":
+				bad, which = fa, "accounted balances, the basis one-asset operations are priced against"
+			case "prop":
+				bad, which = fr, "raw reserves, the basis all-asset operations are priced against"
+			default:
+				bad, which = fa && fr, "raw reserves; the accounted-balance value fell as well"
+			}
+			if bad {
+				num, prevNum := v.tvlRaw, prev.tvlRaw
+				if bs == "single" {
+					num, prevNum = v.tvl, prev.tvl
+				}
+				b, _ := new(big.Rat).Quo(prevNum, new(big.Rat).SetInt(prev.shares.BigInt())).Float64()
+				a, _ := new(big.Rat).Quo(num, new(big.Rat).SetInt(v.shares.BigInt())).Float64()
+				s.Violate("C05", "oracle_value_per_share_decreased_on_"+kind, step, "pool %d: value per share at oracle prices fell from %.12g to %.12g (relative %.3g; %s) across a %s; before {%s} after {%s}", id, b, a, (a-b)/b, which, kind, prev.desc, v.desc)
+			}
+			s.Stats.Probe(kind + "_checked_oracle_pool_basis_" + bs)
 			s.Stats.Probe(kind + "_checked")
 			s.Stats.Probe(kind + "_checked_oracle_pool")
 		}
@@ -163,11 +236,16 @@ func (m *MonC05) observe(ctx sdk.Context, step string, singleAssetJoin bool) {
 	m.last = now
 }
 
-func (m *MonC05) PreTx(ctx sdk.Context, t *ExecTx) { m.observe(ctx, "BeginBlock(+ante)", false) }
-func (m *MonC05) PostTx(ctx sdk.Context, t *ExecTx) {
-	m.observe(ctx, txStep(t), false)
+func (m *MonC05) PreTx(ctx sdk.Context, t *ExecTx) {
+	// share supply changes before the first message of a block come from the leveraged-LP sweep only
+	m.observe(ctx, "BeginBlock(+ante)", map[uint64]string{0: "single"})
 }
-func (m *MonC05) AfterBlock(s *Sim, eb *ExecBlock) { m.observe(s.Ctx(), "EndBlock", false) }
+func (m *MonC05) PostTx(ctx sdk.Context, t *ExecTx) {
+	m.observe(ctx, txStep(t), basisOf(t))
+}
+func (m *MonC05) AfterBlock(s *Sim, eb *ExecBlock) {
+	m.observe(s.Ctx(), "EndBlock", map[uint64]string{0: "mixed"})
+}
 
 // ---------------------------------------------------------------------------
 // C07 — fair vault share price; lending capped at 90 %
